@@ -2,6 +2,7 @@
 from __future__ import annotations
 
 from sa import terms as T
+from sa.anchors import is_helper
 from sa.core import AnalysisError
 from sa.rules.common import effects, call_head, kwarg, guard_literals
 from sa.terms import tag, C
@@ -333,9 +334,18 @@ def hits_immutable(ctx, rule='C05-R6'):
         for nm, m in sorted(k.methods.items()):
             if nm == '_cleanup_pdf':
                 continue
-            for e in fx.own_events(m.qname):
+            if is_helper(p, m.qname):
+                continue        # judged where it is used, with its arguments (a column name passed in) bound
+            seen = set()
+            for e in fx.deep_events(m.qname):
                 if e.kind not in ('store', 'aug', 'del', 'mutcall') or e.base is None or T.root(e.base) != DATA:
                     continue
+                if any(fr.callee.endswith('._cleanup_pdf') for fr in e.ctx):
+                    continue        # inside the clean-up (or a helper of it)
+                key = (id(e.node), T.key(e.target) if e.target is not None else None)
+                if key in seen:
+                    continue
+                seen.add(key)
                 n += 1
                 cols = {x[2] for x in T.walk(e.target) if tag(x) == 'col'} | \
                        {x[3] for x in T.walk(e.target) if tag(x) == 'cell'} | \
